@@ -63,7 +63,7 @@ CHECKS["C01"] = {
 CHECKS["C03"] = {
     "level": "exploration",
     "technique": "rapid-generated write/deliver/read/close sequences on a real Session pair over a test-owned network (synctest bubble); per-stream prefix/equality model derived from the wire tap",
-    "level_text": "Generated scripts of writes, per-connection deliveries and closes by either or both sides; whether the closing notice overtakes data on another connection is a generated value; 0.5 % of the scripts leave 1-5 MB unread on a stream before its receiving side closes it; 40 % of the multi-connection scripts contain the adaptive 'raceclose' delivery: a one-byte frame, a run of 4-24 full frames and the close are written, everything except the first frame and the closing notice is delivered (the run parks in the reorder buffer), then the gap filler's connection and the closing notice are delivered in the same step, so one connection's goroutine flushes the backlog while another processes the close. After every step and after the final drain the readers' bytes/errors are compared with a model computed from the tap (what had been handed over, whether the peer's close is next in line).",
+    "level_text": "Generated scripts of writes, per-connection deliveries and closes by either or both sides; whether the closing notice overtakes data on another connection is a generated value; 0.5 % of the scripts leave 1-5 MB unread on a stream before its receiving side closes it; 40 % of the multi-connection scripts contain the adaptive 'raceclose' delivery: a one-byte frame, a run of 3-12 full frames and the close are written, everything except the first frame and the closing notice is delivered (the run parks in the reorder buffer), then the gap filler's connection and the closing notice are delivered in the same step, so one connection's goroutine flushes the backlog while another processes the close. After every step and after the final drain the readers' bytes/errors are compared with a model computed from the tap (what had been handed over, whether the peer's close is next in line).",
     "level_note": "Same trusted base as C01; a side's Close is issued only after its own writes returned (the statement is about bytes written before the close).",
     "rule": "rapid draws config (method, 1..8 conns or singleplex) and <=60 ops over 1..3 streams with a designated closer (client, server or both) per stream; non-trivial = the stream-closing frame was delivered while a lower-numbered data frame of that stream was still undelivered on another connection; distinct = distinct scenarios.",
     "assumptions": ["only the client opens streams", "network delivers bytes exactly once, in order per connection"],
